@@ -2,7 +2,7 @@
     and the unary minus arm of Value::resolve).  Definitions only. *)
 From Cel.Model Require Export Values.
 
-Definition ts_min_ns : Z := -8334601315200000000000.   (* -262143-01-01T00:00:00Z *)
+Definition ts_min_ns : Z := -8334601228800000000000.   (* -262143-01-01T00:00:00Z *)
 Definition ts_max_ns : Z := 8210266876799999999999.    (* +262142-12-31T23:59:59.999999999Z *)
 Definition ts_in_range (ns : Z) : bool := (ts_min_ns <=? ns) && (ns <=? ts_max_ns).
 
